@@ -67,6 +67,8 @@ def cap(name):
 def judge(case):
     out = []
     kind = case['kind']
+    if kind == 'preset':
+        return judge_preset(case)
     if kind == 'side':
         side, sts, mts, ports, inj = case['side'], case['sts'], case['mts'], case['ports'], case['inj']
         # a single side does not know whether it is the provides side: the 'mixed' rule is judged end-to-end
@@ -118,6 +120,81 @@ def judge(case):
     if nfiles != 8:
         out.append(('incomplete-result', desc))
     return out
+
+
+def judge_preset(case):
+    """The preset helper functions must build exactly the documented configuration (checked end-to-end on a
+    model with two provides and three requires ports + an injected one)."""
+    from dznpy import adv_shell as A  # pylint: disable=import-outside-toplevel
+    from dznpy.adv_shell.types import AdvShellError  # pylint: disable=import-outside-toplevel
+    from dznpy.scoping import ns_ids_t  # pylint: disable=import-outside-toplevel
+    name, ssel, msel, with_mc = case['preset'], case.get('sts'), case.get('mts'), case.get('mc')
+    prov, req, inj = ['a', 'b'], ['x', 'y', 'z'], ['i']
+    want_p = {'all_mts': 'MTS', 'all_sts': 'STS', 'all_sts_all_mts': 'STS', 'all_mts_all_sts': 'MTS',
+              'all_mts_mixed_ts': 'MTS', 'all_sts_mixed_ts': 'STS'}[name]
+    if name in ('all_mts', 'all_sts_all_mts'):
+        wr = ('ACCEPT', {r: 'MTS' for r in req})
+    elif name in ('all_sts', 'all_mts_all_sts'):
+        wr = ('ACCEPT', {r: 'STS' for r in req})
+    else:
+        wr = R.resolve_side('requires', ssel, msel, req, inj)
+    mcfg = None
+    if with_mc:
+        mcfg = A.MultiClientPortCfg('a', 'Claim', ns_ids_t('Ok'), 'Release')
+    try:
+        if name in ('all_mts_mixed_ts', 'all_sts_mixed_ts'):
+            args = [B.mk_select(ssel), B.mk_select(msel)]
+            pcfg = getattr(A, name)(*args, mcfg) if (with_mc and name == 'all_mts_mixed_ts') else getattr(A, name)(*args)
+        elif name in ('all_mts', 'all_mts_all_sts') and with_mc:
+            pcfg = getattr(A, name)(mcfg)
+        else:
+            pcfg = getattr(A, name)()
+    except AdvShellError as exc:
+        if wr[0] == 'ACCEPT':
+            return [('preset-valid-rejected', f'{case}: {exc}')]
+        return []
+    except Exception as exc:  # pylint: disable=broad-except
+        return [(f'preset-crash:{type(exc).__name__}', f'{case}: {exc!r}')]
+    ports = [[n, ['I'], 'provides', False] for n in prov] + [[n, ['I'], 'requires', False] for n in req] + \
+            [[n, ['I'], 'requires', True] for n in inj]
+    doc = [['ns', ['N'], [['interface', 'I', [['enum', 'R', ['Ok', 'No']]],
+                           [['Claim', 'in', ['R'], []], ['Release', 'in', ['void'], []], ['Do', 'in', ['void'], []],
+                            ['Done', 'out', ['void'], []]]], ['component', 'Comp', ports]]]]
+    model = {'doc': doc, 'encapsulee': ['N', 'Comp'], 'file': 'M.dzn'}
+    from dznpy.adv_shell import Builder  # pylint: disable=import-outside-toplevel
+    try:
+        res = Builder().build(B.mk_configuration(model, {'fac': 'create'}, None, pcfg))
+    except AdvShellError as exc:
+        if wr[0] == 'ACCEPT' and not (with_mc and want_p == 'STS'):
+            return [('preset-valid-rejected', f'{case}: {exc}')]
+        return []
+    except Exception as exc:  # pylint: disable=broad-except
+        return [(f'preset-crash:{type(exc).__name__}', f'{case}: {exc!r}')]
+    if wr[0] == 'REJECT':
+        return [(f'preset-invalid-accepted:{wr[1]}', str(case))]
+    if wr[0] == 'EITHER':
+        return []
+    got = {}
+    for sem, direction, _mc, capname in ACCESSOR_RE.findall(res.files[0].contents):
+        got[(direction.lower(), capname)] = sem.upper()
+    want = {('provides', cap(n)): want_p for n in prov}
+    want.update({('requires', cap(n)): s for n, s in wr[1].items()})
+    if got != want:
+        return [('preset-wrong-semantics', f'{case}: got {got} want {want}')]
+    if bool(pcfg.multiclient) != bool(with_mc and name in ('all_mts', 'all_mts_all_sts', 'all_mts_mixed_ts')):
+        return [('preset-drops-multiclient', str(case))]
+    return []
+
+
+def preset_cases():
+    for name in ('all_mts', 'all_sts', 'all_sts_all_mts', 'all_mts_all_sts'):
+        for with_mc in (False, True):
+            yield {'kind': 'preset', 'preset': name, 'mc': with_mc}
+    sels = R.selections(['x', 'y', 'z', 'u', 'i'])
+    for name in ('all_mts_mixed_ts', 'all_sts_mixed_ts'):
+        for ssel, msel in itertools.product(sels, repeat=2):
+            for with_mc in (False, True):
+                yield {'kind': 'preset', 'preset': name, 'sts': ssel, 'mts': msel, 'mc': with_mc}
 
 
 def universes(thorough):
@@ -190,7 +267,8 @@ def class_cross_cases(thorough):
 def work(job):
     which, idx, nslots, thorough = job
     part = Partial()
-    gen = {'side': side_cases, 'e2e': e2e_cases, 'cross': class_cross_cases, 'equal': equal_selection_cases}[which](thorough)
+    gen = {'side': side_cases, 'e2e': e2e_cases, 'cross': class_cross_cases, 'equal': equal_selection_cases,
+           'preset': lambda _t: preset_cases()}[which](thorough)
     for k, case in enumerate(gen):
         if k % nslots != idx:
             continue
@@ -198,7 +276,10 @@ def work(job):
         part.evaluations += 1
         part.states += 1
         part.transitions += 1
-        if case['kind'] == 'side':
+        if case['kind'] == 'preset':
+            part.outcome('preset:' + case['preset'])
+            part.nontrivial += 1
+        elif case['kind'] == 'side':
             want = R.resolve_side('requires', case['sts'], case['mts'], case['ports'], case['inj'])
             part.outcome(f'side:{want[0]}:{want[1] if want[0] == "REJECT" else ""}')
             if want[0] != 'EITHER':
@@ -219,7 +300,7 @@ def work(job):
 def explore(ctx):
     th = ctx.thorough
     jobs = [('side', i, 8, th) for i in range(8)] + [('e2e', i, 48, th) for i in range(48)] + \
-           [('equal', i, 16, th) for i in range(16)]
+           [('equal', i, 16, th) for i in range(16)] + [('preset', i, 8, th) for i in range(8)]
     if th:
         jobs += [('cross', i, 16, th) for i in range(16)]
     for part in pmap(work, jobs):
